@@ -5,7 +5,7 @@ import nets
 
 PID = "C09"
 THEOREMS = ["coarse_shape_covers", "repcell_spec", "valid_iff_outlet_dmm", "valid_iff_outlet_eam", "valid_iff_outlet_eam_plus",
-            "outlet_pixel_spec", "rep_pixels_distinct", "outlet_pixels_distinct", "d8_idx_spec", "upstream_d8_idx_spec", "eam_plus_answers", "up_eam_plus_no_err", "eam_plus_answers_needs_d8", "up_ihu_links_d8", "up_ihu_outlets_valid_topo", "up_ihu_outlets_distinct", "up_ihu_valid_iff_outlet", "up_ihu_outlet_cell_valid", "up_ihu_outlet_cell_valid_refuted", "up_ihu_no_marker", "up_ihu_valid_iff_outlet_total", "up_ihu_scale1", "up_ihu_scale1_net", "gen_up_subidx_2_idx_eq", "gen_up_in_d8_eq", "gen_up_cell_edge_eq", "gen_up_dmm_exitcell_eq", "gen_up_eam_repcell_eq", "gen_up_dmm_nextidx_eq", "gen_up_eam_nextidx_eq", "gen_up_ihu_outlets_eq", "gen_up_ihu_nextidx_eq", "gen_up_upscale_error_eq", "gen_up_upscale_error_assert", "eam_plus_link_partial", "upscale_error_spec", "first_outlet_downstream", "outlet_map_spec", "eam_scale1", "eam_plus_scale1", "eam_link_increases", "eam_loopfree", "eam_plus_loopfree", "eam_links_d8", "eam_plus_links_d8", "dmm_links_d8", "dmm_loopfree"]
+            "outlet_pixel_spec", "rep_pixels_distinct", "outlet_pixels_distinct", "d8_idx_spec", "upstream_d8_idx_spec", "eam_plus_answers", "up_eam_plus_no_err", "eam_plus_answers_needs_d8", "up_ihu_links_d8", "up_ihu_outlets_valid_topo", "up_ihu_outlets_distinct", "up_ihu_valid_iff_outlet", "up_ihu_outlet_cell_valid", "up_ihu_outlet_cell_valid_refuted", "up_ihu_no_marker", "up_ihu_valid_iff_outlet_total", "up_ihu_scale1", "up_ihu_scale1_net", "up_ihu_loop_refuted", "up_ihu_loop_refuted_minimize_error", "up_ihu_cycle_through_unflagged", "gen_up_subidx_2_idx_eq", "gen_up_in_d8_eq", "gen_up_cell_edge_eq", "gen_up_dmm_exitcell_eq", "gen_up_eam_repcell_eq", "gen_up_dmm_nextidx_eq", "gen_up_eam_nextidx_eq", "gen_up_ihu_outlets_eq", "gen_up_ihu_nextidx_eq", "gen_up_upscale_error_eq", "gen_up_upscale_error_assert", "eam_plus_link_partial", "upscale_error_spec", "first_outlet_downstream", "outlet_map_spec", "eam_scale1", "eam_plus_scale1", "eam_link_increases", "eam_loopfree", "eam_plus_loopfree", "eam_links_d8", "eam_plus_links_d8", "dmm_links_d8", "dmm_loopfree"]
 RULE = ("random loop-free fine D8 networks 2x2..12x12 (ragged w.r.t. the scale factor, nodata regions, many small basins, "
         "single rows / columns) x methods dmm, eam, eam_plus, ihu x scale factors 1..5 x default and user upstream area "
         "(accumulations of positive integer weights); FlwdirRaster.upscale + upscale_error; the three non-iterative "
@@ -168,6 +168,20 @@ def impl(case):
         warnings.simplefilter("ignore")
         st, v = call_impl(flw.upscale, s, method, upa, timeout=30)
     if st != "ok":
+        if method == "ihu" and st == "ValueError" and "network is invalid" in str(v) and (c["w"] is None or c.get("scale", 1) == 1):
+            # KNOWN FINDING F9c: ihu can return a coarse network with a cycle, which upscale() refuses.  To tell that defect from any
+            # other failure the raw kernel is run (stable argsort, as for kernel 916) and handed to the model: [-5] = refused,
+            # with the kernel's arrays for the comparison with the model and the cycle test of the oracle
+            orig_argsort = np.argsort
+            try:
+                np.argsort = lambda a_, *x_, **k_: orig_argsort(a_, *x_, **dict(k_, kind="stable"))
+                upk = np.asarray(flw.upstream_area()).ravel() if upa is None else upa.ravel()
+                stk, vk = call_impl(U.ihu, np.asarray(flw.idxs_ds), upk, (nr, nc), s, mv=flw._mv, timeout=30)
+            finally:
+                np.argsort = orig_argsort
+            if stk == "ok":
+                ea = [int(x == 1) for x in U.map_effare(np.asarray(flw.idxs_ds), (nr, nc), s, mv=flw._mv).tolist()]
+                return [[-5], idx_list(vk[0]), idx_list(vk[1]), [int(x) for x in vk[2]], ea, upa_used, [st, str(v)[:200]]]
         return [[-2], [st, str(v)[:200]]]
     flw1, outs = v
     if not np.array_equal(fine_before, np.asarray(flw.idxs_ds)) or (upa is not None and not np.array_equal(upa, upa_before)):
@@ -219,9 +233,13 @@ def compare(case, i, m):
 
 
 def post_checks(case, i):
+    c = case["call"]
+    if i and i[0] == [-5]:
+        # the refused result of the raw ihu kernel must still be the model's (otherwise this is not the known defect)
+        yield ("ihu:differs-from-model", 916, [c["ds"], i[5], [c["nr"]], [c["nc"]], [c["s"]], i[4], i[1], i[2], i[3]])
+        return
     if not i or i[0] != [0]:
         return
-    c = case["call"]
     cds, out, shape1, ea, upa, err = i[1:7]
     base = [c["ds"], upa, [c["nr"]], [c["nc"]], [c["s"]], ea]
     k = {"dmm": 911, "eam": 912, "eam_plus": 913}.get(c["method"])
@@ -244,6 +262,20 @@ def oracle(case, out):
     ctx = f"method={method} s={s} shape={nr}x{nc} ds={ds}" + (f" w={c['w']}" if c["w"] else "")
     if not out:
         return ("shape", "no output")
+    if out[0] == [-5]:
+        # upscale(method='ihu') refused its own result: the known finding F9c iff the raw kernel's coarse network (which the
+        # post-check compares with the model) really contains a cycle; anything else is a new violation
+        cdsk = out[1]
+        def _cyc(i):
+            seen, j = set(), i
+            while 0 <= j < len(cdsk) and cdsk[j] != j and cdsk[j] >= 0:
+                if j in seen:
+                    return True
+                seen.add(j); j = cdsk[j]
+            return False
+        if any(_cyc(i) for i in range(len(cdsk))):
+            return ("ihu:known-loop", f"upscale raised {out[6]}: the coarse network of ihu has a cycle, links {cdsk}; {ctx}")
+        return (f"{tag}:raised", f"upscale raised {out[6]} although the kernel's network {cdsk} has no cycle; {ctx}")
     if out[0] == [-2]:
         return (f"{tag}:raised", f"upscale raised {out[1]}; {ctx}")
     if out[0] == [-3]:
